@@ -425,7 +425,7 @@ def gen_enum(rng: Any) -> dict[str, Any]:
     members: list[list[Any]] = []
     desc: dict[str, Any] = {"k": "enum"}
     if style == "lower":
-        vals = [nm.lower() + "_v" for nm in names]
+        vals = [f"{nm.lower()}_v{i}" for i, nm in enumerate(names)]  # distinct values: no aliases
         members = [[s2j(nm), s2j(v)] for nm, v in zip(names, vals)]
     elif style == "cross" and n >= 2:
         # value of member i = name of member i+1: a lookup by value would land on the wrong member
